@@ -51,6 +51,13 @@ def sweep_cases(ctx: core.Ctx, rnd: random.Random, gens: list, repeats: int, *, 
             add(fname, sname, "code", by_name["B1"], {"single_line": True}, tag)
         if i % (6 if q else 1) == 0:
             add(fname, sname, "code", by_name["B1"], {"dot": "force"}, tag)
+    # a byte order mark in front of the code; a template that carries a notice and a licence of its own (the tool may refuse
+    # it - but then every time, and without touching the file)
+    for fname, sname in (("sample.py", "python"), ("sample.cs", "cpp"), ("sample.html", "html"), ("sample.c", "c")):
+        for _ in range(3):
+            add(fname, sname, "bomcode", by_name["B1"], {}, "bom:" + fname)
+        add(fname, sname, "code", by_name["B1"], {"template": "literal"}, "literal-template:" + fname, must=False)
+        add(fname, sname, "ownheader", by_name["B9"], {"template": "literal"}, "literal-template:" + fname, must=False)
     # files longer than the 4 KiB window, in each line-ending convention (add() cycles LF, CRLF, CR)
     for fname, sname in (("sample.py", "python"), ("sample.c", "c"), ("sample.html", "html")):
         for _ in range(3):
